@@ -30,7 +30,7 @@ from decimal import Decimal
 import math
 from measured import Measurement
 U1, U2 = measured.si.Meter, measured.si.Meter
-a, s, n = Decimal(2) / Decimal(1), Decimal(1) / Decimal(16), -4
+a, s, n = Decimal(2) / Decimal(1), Decimal(1) / Decimal(1), -4
 expr = lambda: Measurement(a * U1, s) ** n
 plain_expr = lambda: (a * U1) ** n
 sigma = abs(n * float(a) ** (n - 1) * float(s)) if n != 0 else 0.0
